@@ -169,7 +169,9 @@ def main():
     nontrivial = set()
     for r in results:
         nontrivial |= set(r['nontrivial'])
-    samples = results[0]['samples'][:4]
+    # prefer small, readable samples (a 1100-state chain is a poor illustration)
+    samples = sorted(results[0]['samples'], key=lambda x: len(json.dumps(x)))[:4]
+    samples = [x if len(json.dumps(x)) < 4000 else {'truncated': json.dumps(x)[:1500] + ' …'} for x in samples]
     ev = {
         'property_id': prop, 'tier': args.tier, 'seed': core.SEED, 'level': meta.get('level', 'proof') if gate['obligations'] > 0 else 'exploration',
         'coverage': {
@@ -181,7 +183,7 @@ def main():
             'theorems': gate['theorems'], 'lean_source_hash': gate['source_hash'],
             'evaluations': sum(r['evaluations'] for r in results),
             'distinct_nontrivial': len(nontrivial),
-            'rule': meta.get('rule', ''), 'samples': samples,
+            'rule': meta.get('rule', '') + '; the minimised failing inputs of corpus/%s.jsonl run first' % prop, 'samples': samples,
             'exhaustive': all(r['exhaustive'] for r in results),
             'branch_counts': counts, 'hash_seeds': [r['hashseed'] for r in results],
             'lean_model_lines': sum(r['lean_lines'] for r in results),
